@@ -26,36 +26,41 @@ theorem coreC_mono {c c' : Ctrl} (hc : CoreC c) (hs : c'.sent = c.sent) (hp : c'
     rw [hs] at hv
     exact lexLe_trans (hc.bnd v hv) hk
   · rw [hs]; exact hc.inc
-  · intro hst' ⟨b, hb⟩
+  · intro hst' lo hi hb
+    unfold pendCurrent at hb
     rw [hp] at hb
-    have hpn := hc.pnd _ _ _ hb
+    have hpn := hc.pnd _ _ _ _ hb
     have hcur : c'.height = c.height ∧ c'.round = c.round := by omega
-    have himp := hc.imp (hst hst') ⟨b, by rw [hb, hcur.1, hcur.2]⟩
+    have himp := hc.imp (hst hst') lo hi (by unfold pendCurrent; rw [hb, hcur.1, hcur.2])
     refine ⟨by omega, ?_⟩
     intro h5 v hv
     rw [hs] at hv
     have := himp.2 (by omega) v hv
     rw [hcur.1, hcur.2]; exact this
-  · intro h r b hb
+  · intro h r lo hi hb
     rw [hp] at hb
-    have := hc.pnd _ _ _ hb
+    have := hc.pnd _ _ _ _ hb
     omega
 
 theorem coreC_pend {c c' : Ctrl} (hc : CoreC c) (hs : c'.sent = c.sent)
     (hh : c'.height = c.height) (hr : c'.round = c.round) (hst : c'.step = c.step)
-    (hp : ∀ h r b, c'.pend ≠ .import_ h r b) : CoreC c' := by
+    (hp : pendWin c'.pend = none) : CoreC c' := by
   refine ⟨?_, ?_, ?_, ?_⟩
   · intro v hv; rw [hs] at hv; rw [hh, hr, hst]; exact hc.bnd v hv
   · rw [hs]; exact hc.inc
-  · intro _ ⟨b, hb⟩; exact absurd hb (hp _ _ _)
-  · intro h r b hb; exact absurd hb (hp _ _ _)
+  · intro _ lo hi hb; unfold pendCurrent at hb; rw [hp] at hb; cases hb
+  · intro h r lo hi hb; rw [hp] at hb; cases hb
 
-/-- "fresh for step `to`": no vote with a key ≥ (height, round, to) has been sent, the machine is
-    at or past `to`, and (for prevotes) no import callback of this round is outstanding -/
+/-- "fresh for step-key `to`": nothing with a key ≥ (height, round, to) has been signed, the machine is
+    at or past `to`, and no outstanding callback of this round could still sign that key -/
 def Fresh (s : S) (to : Nat) : Prop :=
   s.stuck = true ∨
-  (to ≤ s.step ∧ (∀ v, Msg.vote v ∈ sentOf s.eff → lexLt (voteKey v) (s.height, s.round, to)) ∧
-   (to = 4 → ¬ importCurrent (ctrl s)))
+  (to ≤ s.step ∧ (∀ m, m ∈ sentOf s.eff → lexLt (msgKey m) (s.height, s.round, to)) ∧
+   (∀ lo hi, pendCurrent (ctrl s) lo hi → s.step ≤ hi → to < lo))
+
+theorem pendWin_cases (p : Pend) (h r lo hi : Nat) (hw : pendWin p = some (h, r, lo, hi)) :
+    (lo = 4 ∧ hi = 5) ∨ (lo = 3 ∧ hi = 3) := by
+  cases p <;> simp [pendWin] at hw <;> omega
 
 theorem validTransition_lt {a b : Nat} (h : validTransition a b = true) (h0 : b ≠ 0) (h2 : b ≠ 2) : a < b := by
   unfold validTransition stNewHeight stNewRound at h
@@ -81,7 +86,7 @@ theorem core_rfs (s : S) (to : Nat) (h0 : to ≠ 0) (h2 : to ≠ 2) (hc : Core s
   · have hlt' : (ctrl s).step < to := hlt
     rw [h]; exact coreC_mono hc rfl rfl (by unfold lexLe; simp; omega) (by simp)
 
-theorem fresh_rfs (s : S) (to : Nat) (h4 : to = 4 ∨ to = 6) (hc : Core s) (hs : s.stuck = false) :
+theorem fresh_rfs (s : S) (to : Nat) (h4 : to = 3 ∨ to = 4 ∨ to = 6) (hc : Core s) (hs : s.stuck = false) :
     Fresh (s.resetForNewStep to) to := by
   unfold Fresh
   rcases rfs_ctrl s to (by omega) (by omega) with h | ⟨hlt, h⟩
@@ -102,10 +107,12 @@ theorem fresh_rfs (s : S) (to : Nat) (h4 : to = 4 ∨ to = 6) (hc : Core s) (hs 
       unfold lexLe at this; unfold lexLt
       simp only [ctrl] at this ⊢
       omega
-    · intro h4' ⟨b, hb⟩
+    · intro lo hi hb hle
       rw [h] at hb
+      unfold pendCurrent at hb
       simp only [ctrl] at hb
-      have := (hc.imp (by simpa [ctrl] using hs) ⟨b, by simpa [ctrl] using hb⟩).1
+      have hw := pendWin_cases _ _ _ _ _ hb
+      have := (hc.imp (by simpa [ctrl] using hs) lo hi (by unfold pendCurrent; simpa [ctrl] using hb)).1
       simp only [ctrl] at this
       omega
 
@@ -126,23 +133,31 @@ theorem core_rfh (s : S) (hc : Core s) : Core (s.resetForNewHeight (s.height + 1
 theorem core_stuck (s : S) (hc : Core s) : Core { s with stuck := true } :=
   coreC_mono hc rfl rfl (by unfold lexLe; simp [ctrl]) (by simp [ctrl])
 
-theorem core_set_pend (s : S) (p : Pend) (hp : ∀ h r b, p ≠ .import_ h r b) (hc : Core s) :
+theorem core_set_pend (s : S) (p : Pend) (hp : pendWin p = none) (hc : Core s) :
     Core { s with pend := p } :=
   coreC_pend hc rfl rfl rfl rfl hp
 
-theorem core_set_import (s : S) (b : Blk) (hc : Core s) (hf : Fresh s 4) :
-    Core { s with pend := .import_ s.height s.round b } := by
+/-- arming a callback that will sign with step-key `lo` (import: 4, propose: 3) at a fresh point -/
+theorem core_set_pendwin (s : S) (p : Pend) (lo hi : Nat) (hw : pendWin p = some (s.height, s.round, lo, hi))
+    (hc : Core s) (hf : Fresh s lo) : Core { s with pend := p } := by
   unfold Core
   refine ⟨?_, ?_, ?_, ?_⟩
   · exact hc.bnd
   · exact hc.inc
-  · intro hst _
+  · intro hst lo' hi' hb
+    unfold pendCurrent at hb
+    simp only [ctrl] at hb
+    rw [hw] at hb
+    simp only [Option.some.injEq, Prod.mk.injEq] at hb
+    obtain ⟨_, _, rfl, rfl⟩ := hb
     rcases hf with h | ⟨h1, h2, _⟩
     · simp [ctrl] at hst; rw [h] at hst; cases hst
     · exact ⟨h1, fun _ => h2⟩
-  · intro h r b' hb
+  · intro h r lo' hi' hb
     simp only [ctrl] at hb
-    cases hb
+    rw [hw] at hb
+    simp only [Option.some.injEq, Prod.mk.injEq] at hb
+    obtain ⟨rfl, rfl, _, _⟩ := hb
     simp [ctrl]
 
 theorem core_emit_nonsend (s : S) (e : Eff) (he : ∀ m, e ≠ .send m) (hc : Core s) : Core (s.emit e) := by
@@ -162,50 +177,15 @@ theorem fresh_emit_nonsend (s : S) (e : Eff) (he : ∀ m, e ≠ .send m) (to : N
   rw [hctrl, hs]
   exact hf
 
-theorem mem_vote_append_prop {l : List Msg} {v : VoteRec} {a b c d : Nat} {e : Int}
-    (h : Msg.vote v ∈ l ++ [Msg.proposal a b c d e]) : Msg.vote v ∈ l := by
-  simpa using h
-
-theorem coreC_send_prop {c c' : Ctrl} (hc : CoreC c) (a b d e : Nat) (pol : Int)
-    (hs : c'.sent = c.sent ++ [Msg.proposal a b d e pol])
+/-- signing a message with step-key `to` of the current round at a fresh point -/
+theorem coreC_send {c c' : Ctrl} (hc : CoreC c) (m : Msg) (to : Nat)
+    (hs : c'.sent = c.sent ++ [m])
     (hh : c'.height = c.height) (hr : c'.round = c.round) (hst : c'.step = c.step)
-    (hp : c'.pend = c.pend) (hk : c'.stuck = c.stuck) : CoreC c' := by
-  refine ⟨?_, ?_, ?_, ?_⟩
-  · intro v hv; rw [hs] at hv; rw [hh, hr, hst]; exact hc.bnd v (mem_vote_append_prop hv)
-  · rw [hs, List.pairwise_append]
-    refine ⟨hc.inc, by simp, ?_⟩
-    intro x _ y hy
-    simp at hy; subst hy
-    cases x <;> simp [msgLt]
-  · intro hst' ⟨b', hb⟩
-    rw [hp, hh, hr] at hb
-    have := hc.imp (by rw [← hk]; exact hst') ⟨b', hb⟩
-    rw [hst, hh, hr]
-    refine ⟨this.1, fun h5 v hv => ?_⟩
-    rw [hs] at hv
-    exact this.2 h5 v (mem_vote_append_prop hv)
-  · intro h r b' hb; rw [hp] at hb; rw [hh, hr]; exact hc.pnd _ _ _ hb
-
-theorem core_emit_send_prop (s : S) (a b d e : Nat) (pol : Int) (hc : Core s) :
-    Core (s.emit (.send (.proposal a b d e pol))) :=
-  coreC_send_prop hc a b d e pol (by simp [ctrl]) rfl rfl rfl rfl rfl
-
-theorem core_sendProposal (s : S) (b : Blk) (pol : Int) (hc : Core s) : Core (s.sendProposal b pol) := by
-  unfold S.sendProposal
-  have h1 := core_emit_nonsend s (.write .round (.msg (.proposal s.me s.height s.round b pol))) (by intro m; simp) hc
-  have h2 := core_emit_nonsend _ (.sync .round) (by intro m; simp) h1
-  exact core_emit_send_prop _ _ _ _ _ _ h2
-
-theorem coreC_send_vote {c c' : Ctrl} (hc : CoreC c) (m : VoteRec)
-    (hs : c'.sent = c.sent ++ [Msg.vote m])
-    (hh : c'.height = c.height) (hr : c'.round = c.round) (hst : c'.step = c.step)
-    (hp : c'.pend = c.pend)
-    (hm : voteKey m = (c.height, c.round, mstepOf m.typ))
-    (hle : mstepOf m.typ ≤ c.step)
-    (hfr : ∀ v, Msg.vote v ∈ c.sent → lexLt (voteKey v) (c.height, c.round, mstepOf m.typ))
-    (hni : mstepOf m.typ = 4 → ¬ importCurrent c) : CoreC c' := by
-  have h46 : mstepOf m.typ = 4 ∨ mstepOf m.typ = 6 := by
-    cases m.typ <;> simp [mstepOf, stPrevote, stPrecommit]
+    (hp : c'.pend = c.pend) (hk : c'.stuck = c.stuck)
+    (hm : msgKey m = (c.height, c.round, to))
+    (hle : to ≤ c.step)
+    (hfr : ∀ v, v ∈ c.sent → lexLt (msgKey v) (c.height, c.round, to))
+    (hni : ∀ lo hi, pendCurrent c lo hi → c.step ≤ hi → to < lo) : CoreC c' := by
   refine ⟨?_, ?_, ?_, ?_⟩
   · intro v hv; rw [hs] at hv; rw [hh, hr, hst]
     rcases List.mem_append.mp hv with h | h
@@ -215,27 +195,43 @@ theorem coreC_send_vote {c c' : Ctrl} (hc : CoreC c) (m : VoteRec)
     refine ⟨hc.inc, by simp, ?_⟩
     intro x hx y hy
     simp at hy; subst hy
-    cases x with
-    | proposal => simp [msgLt]
-    | vote v => simp only [msgLt]; rw [hm]; exact hfr v hx
-  · intro hst' ⟨b', hb⟩
+    unfold msgLt; rw [hm]; exact hfr x hx
+  · intro hst' lo hi hb
+    unfold pendCurrent at hb
     rw [hp, hh, hr] at hb
-    have hic : importCurrent c := ⟨b', hb⟩
-    have h6 : mstepOf m.typ = 6 := by
-      rcases h46 with h | h
-      · exact absurd hic (hni h)
-      · exact h
-    rw [hst]
-    exact ⟨by omega, fun h5 => by omega⟩
-  · intro h r b' hb; rw [hp] at hb; rw [hh, hr]; exact hc.pnd _ _ _ hb
+    have h0 := hc.imp (by rw [← hk]; exact hst') lo hi hb
+    rw [hst, hh, hr]
+    refine ⟨h0.1, fun h5 v hv => ?_⟩
+    rw [hs] at hv
+    rcases List.mem_append.mp hv with h | h
+    · exact h0.2 h5 v h
+    · simp at h; subst h; rw [hm]
+      have := hni lo hi hb h5
+      unfold lexLt; simp; omega
+  · intro h r lo hi hb; rw [hp] at hb; rw [hh, hr]; exact hc.pnd _ _ _ _ hb
 
+theorem core_emit_send (s : S) (m : Msg) (to : Nat) (hc : Core s) (hst : s.stuck = false)
+    (hf : Fresh s to) (hm : msgKey m = (s.height, s.round, to)) : Core (s.emit (.send m)) := by
+  rcases hf with h | ⟨h1, h2, h3⟩
+  · rw [h] at hst; cases hst
+  · exact coreC_send hc m to (by simp [ctrl]) rfl rfl rfl rfl rfl hm h1 h2 h3
 
 theorem core_emit_send_vote (s : S) (t : VType) (v : Option Blk) (hc : Core s) (hst : s.stuck = false)
     (hf : Fresh s (mstepOf t)) :
-    Core (s.emit (.send (.vote ⟨s.me, s.height, t, s.round, v⟩))) := by
-  rcases hf with h | ⟨h1, h2, h3⟩
-  · rw [h] at hst; cases hst
-  · exact coreC_send_vote hc ⟨s.me, s.height, t, s.round, v⟩ (by simp [ctrl]) rfl rfl rfl rfl rfl h1 h2 h3
+    Core (s.emit (.send (.vote ⟨s.me, s.height, t, s.round, v⟩))) :=
+  core_emit_send s _ _ hc hst hf rfl
+
+theorem core_sendProposal (s : S) (b : Blk) (pol : Int) (hc : Core s) (hf : Fresh s stPropose) :
+    Core (s.sendProposal b pol) := by
+  unfold S.sendProposal
+  split
+  · exact hc
+  rename_i hst
+  have h1 := core_emit_nonsend s (.write .round (.msg (.proposal s.me s.height s.round b pol))) (by intro m; simp) hc
+  have f1 := fresh_emit_nonsend s (.write .round (.msg (.proposal s.me s.height s.round b pol))) (by intro m; simp) _ hf
+  have h2 := core_emit_nonsend _ (.sync .round) (by intro m; simp) h1
+  have f2 := fresh_emit_nonsend _ (.sync .round) (by intro m; simp) _ f1
+  exact core_emit_send _ _ _ h2 (by simpa [S.emit] using hst) f2 rfl
 
 theorem ctrl_hvsAdd (s : S) (m : VoteRec) : ctrl (s.hvsAdd m).2 = ctrl s := by
   unfold S.hvsAdd
@@ -243,6 +239,16 @@ theorem ctrl_hvsAdd (s : S) (m : VoteRec) : ctrl (s.hvsAdd m).2 = ctrl s := by
   split <;> rfl
 
 theorem stuck_emit (s : S) (e : Eff) : (s.emit e).stuck = s.stuck := rfl
+
+theorem fresh_of_ctrl {s s' : S} (h : ctrl s' = ctrl s) (to : Nat) (hf : Fresh s to) : Fresh s' to := by
+  have e1 : s'.stuck = s.stuck := congrArg Ctrl.stuck h
+  have e2 : s'.step = s.step := congrArg Ctrl.step h
+  have e3 : sentOf s'.eff = sentOf s.eff := congrArg Ctrl.sent h
+  have e4 : s'.height = s.height := congrArg Ctrl.height h
+  have e5 : s'.round = s.round := congrArg Ctrl.round h
+  unfold Fresh at *
+  rw [e1, e2, e3, e4, e5, h]
+  exact hf
 
 structure IH (f : Nat) : Prop where
   recvVote : ∀ s m, Core s → Core (recvVote f s m)
@@ -403,7 +409,7 @@ theorem step_commitAndEnterNewHeight (f : Nat) (ih : IH f) (s : S) (hc : Core s)
   · exact hc
   split
   · split
-    · exact core_set_pend _ _ (by intro h r b; simp) hc
+    · exact core_set_pend _ _ rfl hc
     · exact ih.enterNewHeight _ (core_finalize _ _ hc)
   · exact core_stuck _ hc
 
@@ -462,16 +468,20 @@ theorem step_enterPropose (f : Nat) (ih : IH f) (s : S) (hc : Core s) :
   unfold Goloop.C01.enterPropose
   split
   · exact hc
+  rename_i hst
   simp only []
   have h1 := core_rfs s stPropose (by decide) (by decide) hc
-  generalize s.resetForNewStep stPropose = s1 at h1 ⊢
+  have f1 : Fresh (s.resetForNewStep stPropose) stPropose :=
+    fresh_rfs s stPropose (Or.inl rfl) hc (by simpa using hst)
+  generalize s.resetForNewStep stPropose = s1 at h1 f1 ⊢
   have h2 : Core { s1 with timer := true } := h1
-  generalize ({ s1 with timer := true } : S) = s2 at h2 ⊢
+  have f2 : Fresh { s1 with timer := true } stPropose := fresh_of_ctrl (s := s1) rfl _ f1
   split
   · split
-    · exact core_sendProposal _ _ _ h2
+    · exact core_of_ctrl_eq (s := S.sendProposal { s1 with timer := true } _ _) rfl
+        (core_sendProposal _ _ _ h2 f2)
     · exact core_of_ctrl_eq (s := { s1 with pend := .propose s1.height s1.round }) rfl
-        (core_set_pend s1 _ (by intro h r b; simp) h1)
+        (core_set_pendwin s1 _ 3 3 rfl h1 f1)
   · split
     · exact ih.enterPrevote _ h2
     · exact h2
@@ -497,16 +507,6 @@ theorem tail_precommit (f : Nat) (ih : IH f) (x : S) (hx : Core x) :
     · exact hx
   · exact hx
 
-theorem fresh_of_ctrl {s s' : S} (h : ctrl s' = ctrl s) (to : Nat) (hf : Fresh s to) : Fresh s' to := by
-  have e1 : s'.stuck = s.stuck := congrArg Ctrl.stuck h
-  have e2 : s'.step = s.step := congrArg Ctrl.step h
-  have e3 : sentOf s'.eff = sentOf s.eff := congrArg Ctrl.sent h
-  have e4 : s'.height = s.height := congrArg Ctrl.height h
-  have e5 : s'.round = s.round := congrArg Ctrl.round h
-  unfold Fresh at *
-  rw [e1, e2, e3, e4, e5, h]
-  exact hf
-
 theorem step_enterPrevote (f : Nat) (ih : IH f) (s : S) (hc : Core s) :
     Core (enterPrevote (f+1) s) := by
   unfold Goloop.C01.enterPrevote
@@ -516,7 +516,7 @@ theorem step_enterPrevote (f : Nat) (ih : IH f) (s : S) (hc : Core s) :
   simp only []
   have h1 := core_rfs s stPrevote (by decide) (by decide) hc
   have f1 : Fresh (s.resetForNewStep stPrevote) (mstepOf .prevote) :=
-    fresh_rfs s stPrevote (Or.inl rfl) hc (by simpa using hst)
+    fresh_rfs s stPrevote (Or.inr (Or.inl rfl)) hc (by simpa using hst)
   generalize s.resetForNewStep stPrevote = s1 at h1 f1 ⊢
   apply tail_prevote f ih
   split
@@ -526,7 +526,7 @@ theorem step_enterPrevote (f : Nat) (ih : IH f) (s : S) (hc : Core s) :
       · exact ih.sendVote _ _ _ h1 f1
       · split
         · exact ih.sendVote _ _ _ h1 f1
-        · exact core_set_import _ _ h1 f1
+        · exact core_set_pendwin _ _ 4 5 rfl h1 f1
     · exact ih.sendVote _ _ _ h1 f1
 
 theorem step_enterPrecommit (f : Nat) (ih : IH f) (s : S) (hc : Core s) :
@@ -538,7 +538,7 @@ theorem step_enterPrecommit (f : Nat) (ih : IH f) (s : S) (hc : Core s) :
   simp only []
   have h1 := core_rfs s stPrecommit (by decide) (by decide) hc
   have f1 : Fresh (s.resetForNewStep stPrecommit) (mstepOf .precommit) :=
-    fresh_rfs s stPrecommit (Or.inr rfl) hc (by simpa using hst)
+    fresh_rfs s stPrecommit (Or.inr (Or.inr rfl)) hc (by simpa using hst)
   generalize s.resetForNewStep stPrecommit = s1 at h1 f1 ⊢
   apply tail_precommit f ih
   split
@@ -643,11 +643,17 @@ theorem ctrl_markValidated (s : S) (ib : Blk) : ctrl (s.markValidated ib) = ctrl
   · split <;> rfl
   · rfl
 
-theorem ev_asyncPropose (s : S) (h r : Nat) (hc : Core s) : Core (asyncPropose s h r) := by
+theorem ev_asyncPropose (s : S) (h r : Nat) (hc : Core s)
+    (hf : s.height = h → s.round = r → s.step = stPropose → Fresh s stPropose) :
+    Core (asyncPropose s h r) := by
   unfold asyncPropose
   split
   · exact hc
-  · exact (ih_all _).enterPrevote _ (core_sendProposal _ _ _ hc)
+  rename_i hcond
+  simp only [Bool.or_eq_true, bne_iff_ne, ne_eq, not_or, Decidable.not_not] at hcond
+  exact (ih_all _).enterPrevote _
+    (core_of_ctrl_eq (s := S.sendProposal s (ownBlk s h r) (-1)) rfl
+      (core_sendProposal _ _ _ hc (hf hcond.1.1 hcond.1.2 hcond.2)))
 
 theorem ev_asyncCommit (s : S) (h r : Nat) (hc : Core s) : Core (asyncCommit s h r) := by
   unfold asyncCommit
@@ -680,31 +686,38 @@ theorem ev_asyncImport (s : S) (h r : Nat) (ib : Blk) (hc : Core s)
     · exact core_stuck _ hc1
   · exact hc1
 
+/-- what the invariant gives for an armed callback once `pend` is cleared -/
+theorem fresh_of_pend (s : S) (lo hi : Nat) (hc : Core s)
+    (hw : pendWin s.pend = some (s.height, s.round, lo, hi)) (hle : s.step ≤ hi) :
+    Fresh { s with pend := .none } lo := by
+  cases hst : s.stuck
+  · right
+    have hi' := hc.imp (by simpa [ctrl] using hst) lo hi (by unfold pendCurrent; simpa [ctrl] using hw)
+    simp only [ctrl] at hi'
+    refine ⟨hi'.1, hi'.2 hle, ?_⟩
+    intro lo' hi'' hb
+    unfold pendCurrent at hb
+    simp [ctrl, pendWin] at hb
+  · left; rfl
+
 theorem ev_async (s : S) (hc : Core s) : Core (async s) := by
   unfold async
   split
   · exact hc
-  have hn : Core { s with pend := .none } := core_set_pend s .none (by intro h r b; simp) hc
+  have hn : Core { s with pend := .none } := core_set_pend s .none rfl hc
   split
   · exact hc
-  · exact ev_asyncPropose _ _ _ hn
+  · rename_i h r hp
+    apply ev_asyncPropose _ _ _ hn
+    intro hh hr h3
+    simp only [] at hh hr h3
+    exact fresh_of_pend s 3 3 hc (by rw [hp, hh, hr]; rfl) (by rw [h3]; decide)
   · rename_i h r ib hp
     apply ev_asyncImport _ _ _ _ hn
     intro hh hr h5
     simp only [] at hh hr h5
-    cases hst : s.stuck
-    · right
-      have hi := hc.imp (by simpa [ctrl] using hst) ⟨ib, by simp only [ctrl]; rw [hp, hh, hr]⟩
-      simp only [ctrl] at hi
-      unfold stPrevoteWait at h5
-      refine ⟨by simp [mstepOf, stPrevote]; omega, ?_, ?_⟩
-      · intro v hv
-        exact hi.2 (by omega) v hv
-      · intro _ ⟨b', hb'⟩
-        simp [ctrl] at hb'
-    · left; rfl
+    exact fresh_of_pend s 4 5 hc (by rw [hp, hh, hr]; rfl) h5
   · exact ev_asyncCommit _ _ _ hn
-
 
 /-! ### start (first start: nothing in the WALs) and whole runs without crash -/
 
@@ -713,8 +726,8 @@ theorem core_of_nosent (s : S) (hs : sentOf s.eff = []) (hp : s.pend = .none) : 
   refine ⟨?_, ?_, ?_, ?_⟩
   · intro v hv; simp [ctrl, hs] at hv
   · simp [ctrl, hs]
-  · intro _ ⟨b, hb⟩; simp [ctrl, hp] at hb
-  · intro h r b hb; simp [ctrl, hp] at hb
+  · intro _ lo hi hb; unfold pendCurrent at hb; simp [ctrl, hp, pendWin] at hb
+  · intro h r lo hi hb; simp [ctrl, hp, pendWin] at hb
 
 @[simp] theorem walDurable_nil (w : Wal) : walDurable w [] = [] := rfl
 @[simp] theorem applyRoundWAL_nil (s : S) : applyRoundWAL s [] = s := by unfold applyRoundWAL; rfl
@@ -780,18 +793,22 @@ theorem run_core (s : S) (evs : List Event) (hn : ∀ e ∈ evs, e.noCrash) (hc 
 
 theorem lexLt_irrefl (a : Key) : ¬ lexLt a a := by unfold lexLt; omega
 
-theorem pairwise_msgLt_unique {l : List Msg} (hp : l.Pairwise msgLt) {v w : VoteRec}
-    (hv : Msg.vote v ∈ l) (hw : Msg.vote w ∈ l) (hk : voteKey v = voteKey w) : v = w := by
+theorem pairwise_msgLt_unique_msg {l : List Msg} (hp : l.Pairwise msgLt) {a b : Msg}
+    (ha : a ∈ l) (hb : b ∈ l) (hk : msgKey a = msgKey b) : a = b := by
   induction l with
-  | nil => cases hv
-  | cons a t ih =>
+  | nil => cases ha
+  | cons x t ih =>
     rw [List.pairwise_cons] at hp
-    rcases List.mem_cons.mp hv with h1 | h1 <;> rcases List.mem_cons.mp hw with h2 | h2
-    · rw [← h1] at h2; exact (Msg.vote.inj h2).symm ▸ rfl
-    · have := hp.1 _ h2; rw [← h1] at this; simp only [msgLt] at this; rw [hk] at this
+    rcases List.mem_cons.mp ha with h1 | h1 <;> rcases List.mem_cons.mp hb with h2 | h2
+    · rw [h1, h2]
+    · have := hp.1 _ h2; rw [← h1] at this; unfold msgLt at this; rw [hk] at this
       exact absurd this (lexLt_irrefl _)
-    · have := hp.1 _ h1; rw [← h2] at this; simp only [msgLt] at this; rw [hk] at this
+    · have := hp.1 _ h1; rw [← h2] at this; unfold msgLt at this; rw [hk] at this
       exact absurd this (lexLt_irrefl _)
     · exact ih hp.2 h1 h2
+
+theorem pairwise_msgLt_unique {l : List Msg} (hp : l.Pairwise msgLt) {v w : VoteRec}
+    (hv : Msg.vote v ∈ l) (hw : Msg.vote w ∈ l) (hk : voteKey v = voteKey w) : v = w :=
+  Msg.vote.inj (pairwise_msgLt_unique_msg hp hv hw hk)
 
 end Goloop.C01
